@@ -243,7 +243,9 @@ class Lib:
         self._index = None
 
     def client_cls(self, svc, asyn=False):
-        return getattr(self.root, svc + ("AsyncClient" if asyn else "Client"))
+        suffix = "AsyncClient" if asyn else "Client"
+        # a service with internal methods (selective generation, keep-as-internal mode) names its clients Base<Service>...
+        return getattr(self.root, svc + suffix, None) or getattr(self.root, "Base" + svc + suffix)
 
     def grpc_client(self, svc, target, log=None):
         C = self.client_cls(svc)
